@@ -111,7 +111,11 @@ CFG = {
                # every noise mode x a final re-sampling stage of 0 / 1 / 2 samples, runs long enough to poll twice
                (dict(name="c09nfs", noise=["auto", "declared", "hetero"], noise_w=[2, 1, 1], nfs_choices=[1, 1, 0, 2],
                      knobs=dict(noise_final_samples=1.0, max_iter=0.0), fam=["quad", "abs"], fam_w=[3, 1], cons_p=0.1,
-                     budget_kinds=["small", "mid"], budget_min=30), 24, 400)],
+                     budget_kinds=["small", "mid"], budget_min=30), 24, 400),
+               # deep convergence on smooth targets: near-coincident training points, ill-conditioned covariance matrices
+               (dict(name="c09deep", fam=["quad"], fam_w=[1], noise=["none"], noise_w=[1], geom=["sym", "asym"], geom_w=[1, 1], x0=["inside"], x0_w=[1],
+                     where=["plausible"], where_w=[1], cons_p=0.0, D=[1, 2, 3, 4], rare_knobs=0.0, fmul_p=0.0, knobs=dict(max_iter=0.0, n_train=0.0, cache_size=0.0, fun_eval_start=0.0, accelerate_mesh=0.0, complete_poll=0.0, tol_fun=0.0, tol_noise=0.0),
+                     force_options=dict(tol_mesh=1e-12, tol_stall_iters=50, max_fun_evals=400)), 8, 100)],
         nontrivial=lambda r: r["outcome"] in ("completed", "exception", "ctor_crash"),
         rule="distinct valid scenarios that were constructed and run to an outcome (completed or crashed)",
     ),
@@ -142,7 +146,11 @@ CFG = {
         # coordinates of 1e6..1e8, where a careless squared-distance formula loses all its digits
         extra=[(dict(name="c15far", geom=["vast", "huge"], geom_w=[3, 1], x0=["far", "hard_not_plausible"], x0_w=[3, 1], where=["x0", "hard"], where_w=[3, 1],
                      fam=["quad", "abs"], fam_w=[3, 1], noise_w=[3, 0, 2, 2], cons_p=0.0, monitors=["acq"],
-                     budget_kinds=["mid"], budget_min=50, knobs=dict(n_train=0.9, max_iter=0.0)), 24, 400)],
+                     budget_kinds=["mid"], budget_min=50, knobs=dict(n_train=0.9, max_iter=0.0)), 24, 400),
+               # deep convergence: mesh and GP length scales shrink to ~1e-9 of the coordinates (conditioning, rounding of the scaled metric)
+               (dict(name="c15deep", fam=["quad"], fam_w=[1], noise=["none"], noise_w=[1], geom=["sym", "asym"], geom_w=[1, 1], x0=["inside"], x0_w=[1],
+                     where=["plausible"], where_w=[1], cons_p=0.0, D=[1, 2, 3, 4], rare_knobs=0.0, fmul_p=0.0, knobs=dict(max_iter=0.0, n_train=0.0, cache_size=0.0, fun_eval_start=0.0, accelerate_mesh=0.0, complete_poll=0.0, tol_fun=0.0, tol_noise=0.0),
+                     force_options=dict(tol_mesh=1e-12, tol_stall_iters=50, max_fun_evals=400), monitors=["acq"]), 8, 100)],
         nontrivial=lambda r: r["outcome"] == "completed" and r["lgf_calls"] >= 2 and r["acq_calls"] >= 2,
         rule="distinct scenarios completed with >=2 local GP fits and >=2 acquisition evaluations, all judged",
     ),
